@@ -119,10 +119,10 @@ def successor_rules(ctx, rid="R4"):
     from . import formulas
     before = len(ctx.obligations)
     formulas.transition_formulas(ctx, rid)
+    ctx.obligations[before:] = [o for o in ctx.obligations[before:] if "get_successor_of" in o.id]
     before = len(ctx.obligations)
     formulas.three_opt_details(ctx, rid)       # the optimised cycle is a permutation of the old one (no vehicle lost or doubled)
     ctx.obligations[before:] = [o_ for o_ in ctx.obligations[before:] if "new-cycle" in o_.id or "index" in o_.id]
-    ctx.obligations[before:] = [o for o in ctx.obligations[before:] if "get_successor_of" in o.id]
     # R4: update_vehicle keeps the membership of the cycle
     o, fd = ctx.require_fn("%s.update-keeps-cycle-members" % rid, "T1", TR("update_vehicle"),
                            "update_vehicle rebuilds the cycle with the same vehicle vector")
